@@ -6,40 +6,29 @@ from fjverif.selftest import M, _apply
 from fjverif.pyfacts import Repo
 from fjverif.core import Report, AnalysisError, load_known_findings, _match_known
 exec(open('/verif/tools_eq.py').read().split("wt = Path(sys.argv[1])")[0].split('"""', 2)[2])     # imports
-def hunks(diff):
-    edits = []; rel = None; old = []; new = []
-    def flush():
-        nonlocal old, new
-        if rel and (old or new) and old != new:
-            edits.append((rel, '\n'.join(old) + '\n', '\n'.join(new) + '\n'))
-        old, new = [], []
-    for line in diff.split('\n'):
-        if line.startswith('diff --git'):
-            flush(); rel = None
-        elif line.startswith('+++ b/'):
-            rel = line[6:]
-        elif line.startswith('--- ') or line.startswith('index '):
-            continue
-        elif line.startswith('@@'):
-            flush()
-        elif rel is not None:
-            if line.startswith(' '):
-                old.append(line[1:]); new.append(line[1:])
-            elif line.startswith('-'):
-                old.append(line[1:])
-            elif line.startswith('+'):
-                new.append(line[1:])
-    flush()
-    return edits
+import re, shutil, subprocess, tempfile
+def patched_overlay(diff_path):
+    """{rel: text} of the files the patch touches, with the patch applied to copies under a temporary directory (patch(1) places
+    each hunk by its line numbers and context, so repeated text is no obstacle); None when it no longer applies to HEAD."""
+    diff = Path(diff_path).read_text()
+    rels = re.findall(r'^\+\+\+ b/(\S+)', diff, flags=re.M)
+    with tempfile.TemporaryDirectory(prefix='fjverif-reseed-') as td:
+        for rel in rels:
+            dst = Path(td) / rel
+            dst.parent.mkdir(parents=True, exist_ok=True)
+            if (Path('/repo') / rel).exists():
+                shutil.copy(Path('/repo') / rel, dst)
+        r = subprocess.run(['patch', '-p1', '-s', '--no-backup-if-mismatch', '-F0', '-d', td, '-i', str(diff_path)], capture_output=True, text=True)
+        if r.returncode != 0:
+            return None
+        return {rel: (Path(td) / rel).read_text() for rel in rels if (Path(td) / rel).exists()}
 known = load_known_findings()
 res = {}
 for d in sorted(Path('/verif/seeded').iterdir()):
     if not (d / 'patch.diff').exists():
         continue
     meta = json.loads((d / 'meta.json').read_text())
-    eds = hunks((d / 'patch.diff').read_text())
-    v = M(meta['property'], d.name, eds[0][0], eds[0][1], eds[0][2], 'x', also=eds[1:])
-    ov = _apply(Repo(), v)
+    ov = patched_overlay(d / 'patch.diff')
     if ov is None:
         res[d.name] = 'STALE (the hunk context no longer matches HEAD)'
         continue
@@ -59,4 +48,5 @@ for k, v in res.items():
 # seeds that stay undetected for a stated reason (value-level behaviour outside the technique) are listed in seeded/not_caught.json
 nc = json.loads(Path('/verif/seeded/not_caught.json').read_text()) if Path('/verif/seeded/not_caught.json').exists() else {}
 print('not caught (recorded with reason):', sorted(k for k, v in res.items() if v == 'MISSED' and k in nc))
+print('stale:', [k for k, v in res.items() if isinstance(v, str) and v.startswith('STALE')])
 print('missed:', [k for k, v in res.items() if v == 'MISSED' and k not in nc])
